@@ -24,6 +24,8 @@ class C15(PropBase):
             ops.append(('w_create', ['', s, [['a', '1']]]))
             ops.append(('w_update', ['', s, [['a', '2']]]))
             ops.append(('w_update', ['', s, [['b', 'x y']]]))
+            ops.append(('w_set', ['', s, 'c', '']))
+            ops.append(('get_data_paths_new', ['', ['s', s], [], 'str']))
             ops.append(('get_data_paths', ['', ['s', s], [], 'str']))
             ops.append(('sid_exists', [['s', s]]))
         return ops
@@ -35,12 +37,14 @@ class C15(PropBase):
         for n in ['F1', 'F2', 'F3', 'D1', 'D2', 'N1']:
             s = dl.ALPHABET[n]
             out.append(Case('get_data_paths', ['', ['s', s], [], 'str'], 'final', {'h': hid, 'sid': s}))
+            out.append(Case('get_data_paths_new', ['', ['s', s], [], 'str'], 'final', {'h': hid, 'sid': s}))
             out.append(Case('get_data_all', [s, ['a', 'zz'], 'uri'], 'final', {'h': hid, 'sid': s}))
             out.append(Case('sid_exists', [['s', s]], 'final', {'h': hid, 'sid': s}))
         out.append(Case('find_paths', ['', 'hamlet/a/char/x/model/*'], 'final', {'h': hid}))
         out.append(Case('find_paths', ['server', 'hamlet/a/char/x/model/*'], 'final', {'h': hid}))
         out.append(Case('find_all', ['hamlet/a/char/x/**/ma,mb'], 'final', {'h': hid}))
         out.append(Case('children', [['s', dl.ALPHABET['D2']]], 'final', {'h': hid}))
+        out.append(Case('children', [['s', dl.ALPHABET['S2']]], 'final', {'h': hid, 'leaf': True}))
         out.append(Case('fs_dump', [], 'dump', {'h': hid}))
         return out
     def cases(self, rng, ctx, tier):
@@ -53,11 +57,12 @@ class C15(PropBase):
             for seq in itertools.product(small, repeat=n):
                 hid += 1
                 out.extend(self.history(seq, hid))
-        full = self.ops_alphabet(list(dl.ALPHABET))
+        full = self.ops_alphabet([k for k in dl.ALPHABET])
+        creates = [o for o in full if o[0] == 'w_create']
         nrand, maxlen = (60, 10) if tier == 'quick' else (1500, 40)
         for _ in range(nrand):
             hid += 1
-            seq = [rng.choice(full) for _ in range(rng.randint(3, maxlen))]
+            seq = [rng.choice(creates) for _ in range(rng.randint(1, 3))] + [rng.choice(full) for _ in range(rng.randint(3, maxlen))]
             out.extend(self.history(seq, hid))
         out.append(Case('fs_reset', [], 'setup', {'h': 0}))
         return out
@@ -97,6 +102,9 @@ class C15(PropBase):
                             written.setdefault(s, []).append((k, v))
                     elif o[1] != 'SpilException':
                         fails.append((c, o, 'create raised %r' % (o,))); break
+                elif c.op == 'w_set':
+                    if o[0] != 'ok' and o[1] != 'SpilException':
+                        fails.append((c, o, 'set raised %r' % (o,))); break
                 elif c.op == 'w_update':
                     s = c.args[1]
                     if o[0] == 'ok':
@@ -121,7 +129,9 @@ class C15(PropBase):
             for c, o in finals:
                 if o[0] != 'ok':
                     fails.append((c, o, 'read / search failed: %r' % (o,))); break
-                if c.op == 'get_data_paths':
+                if c.op == 'children' and c.meta.get('leaf') and o[1]:
+                    fails.append((c, o, 'a leaf Sid has children: %r' % (o[1],))); break
+                if c.op in ('get_data_paths', 'get_data_paths_new'):
                     s = c.meta['sid']
                     rec = dict((k, v[0] if v else None) for k, v in o[1])
                     exp = {}
@@ -131,6 +141,8 @@ class C15(PropBase):
                         if cc.stream == 'history' and cc.op in ('w_create', 'w_update') and oo[0] == 'ok' and cc.args[1] in share:
                             for k, v in cc.args[2]:
                                 exp[k] = v
+                        if cc.stream == 'history' and cc.op == 'w_set' and oo[0] == 'ok' and cc.args[1] in share:
+                            exp[cc.args[2]] = cc.args[3]
                     got = {k: v for k, v in rec.items() if k != 'sid'}
                     has_path = s not in (dl.ALPHABET['N1'], dl.ALPHABET['U1'])
                     if has_path and got != exp:
